@@ -271,12 +271,31 @@ def rule_e2(chk, prog, em, tool, seen):
     return n
 
 
+def _errish(em, y, res, seen):
+    """y is built from error results only: results of calls that can fail, non-positive constants, phis / casts of those"""
+    while y.is_inst and y.op in ("sext", "zext", "trunc"):
+        y = y.ops[0]
+    if id(y) in seen:
+        return True
+    seen.add(id(y))
+    if y.is_const:
+        return bool(y.is_int and y.sval <= 0)
+    if id(y) in res:
+        return True
+    if y.is_inst and y.op == "call":
+        return em.call_is_err(y)
+    if y.is_inst and y.op in ("phi", "select"):
+        return all(_errish(em, o, res, seen) for o in (y.ops if y.op == "phi" else y.ops[1:]))
+    return False
+
+
 def rule_e6(chk, prog, em, tool, seen):
-    """E6: on the edge where a result was found negative (an error code) the function does not return a value that may be
-    non-negative -- a byte count, a 'partial success' -- without having stored or reported anything in between"""
+    """E6: on the edge where a result was found to be an error code (negative, or non-zero for 0/-errno functions) the
+    function does not return a value that may be a regular answer -- a byte count, a 'partial success' -- without having
+    stored or reported anything in between"""
     n = 0
     for f in prog.functions():
-        if f.ret not in ("i32", "i64"):
+        if f.ret not in ("i32", "i64") or f.name == "main":
             continue
         for c in f.calls():
             if not em.call_is_err(c):
@@ -285,65 +304,77 @@ def rule_e6(chk, prog, em, tool, seen):
             if key in seen:
                 continue
             res = {id(c)}
-            for u in f.uses.get(c, []):
-                if u.op in ("sext", "zext", "trunc"):
-                    res.add(id(u))
-            for u in [x for v in [c] + [y for y in f.uses.get(c, []) if y.op in ("sext", "zext", "trunc")] for x in f.uses.get(v, [])]:
-                if u.op != "icmp" or u.pred not in ("slt", "sge") or not (u.ops[1].is_const and u.ops[1].is_int and u.ops[1].sval == 0):
-                    continue
-                for br in f.uses.get(u, []):
-                    if br.op != "br" or len(br.x["succ"]) != 2:
+            vals = [c] + [y for y in f.uses.get(c, []) if y.op in ("sext", "zext", "trunc")]
+            for y in vals:
+                res.add(id(y))
+            edges = []
+            for v in vals:
+                for u in f.uses.get(v, []):
+                    if u.op != "icmp" or not (u.ops[1].is_const and u.ops[1].is_int and u.ops[1].sval == 0):
                         continue
-                    err_succ = br.x["succ"][0] if u.pred == "slt" else br.x["succ"][1]
-                    seen.add(key)
-                    n += 1
-                    inst = "%s->%s" % (f.name, norm_callee(c.callee) or ("%s.%s" % slot_call(c) if slot_call(c) else "indirect"))
-                    b, prev = err_succ, br.bb
-                    steps = 0
-                    bad = None
-                    while steps < 6:
-                        steps += 1
-                        body = [i for i in b.insts if i.op not in ("br", "ret", "phi", "icmp", "select", "sext", "zext", "trunc")]
-                        if any(i.op in ("call", "store") for i in body):
-                            break
-                        t = b.term
-                        if t.op == "ret":
-                            v = t.ops[0] if t.ops else None
-                            if v is not None and v.is_inst and v.op == "phi" and v.bb is b:
-                                for val, pred in zip(v.ops, v.x["inc"]):
-                                    if pred is prev:
-                                        v = val
-                            leaves, work = [], [v] if v is not None else []
-                            while work:
-                                x = work.pop()
-                                y = x
-                                while y.is_inst and y.op in ("sext", "zext", "trunc"):
-                                    y = y.ops[0]
-                                if y.is_inst and y.op == "select":
-                                    work += [y.ops[1], y.ops[2]]
-                                else:
-                                    leaves.append(y)
-                            for y in leaves:
-                                if y.is_const:
-                                    if y.is_int and y.sval > 0:
-                                        bad = (t, "the positive constant %d" % y.sval)
-                                elif id(y) in res:
-                                    pass
-                                elif y.is_inst and y.op == "call" and em.call_is_err(y):
-                                    pass
-                                else:
-                                    bad = (t, "'%s', which is not the error code" % (getattr(y, "name", None) or y.op if y.is_inst else "a value"))
-                            break
-                        if t.op == "br" and len(t.x["succ"]) == 1:
-                            prev, b = b, t.x["succ"][0]
+                    for br in f.uses.get(u, []):
+                        if br.op != "br" or len(br.x["succ"]) != 2:
                             continue
-                        break
-                    if bad is not None:
-                        chk.violation("E6", inst, c, "on the edge where %s returned a negative error code the function can return %s "
-                                      "(line %d) without storing or reporting the error: the failure is swallowed or deferred to a call "
-                                      "that may never come" % (norm_callee(c.callee) or "the callee", bad[1], bad[0].line))
-                    else:
-                        chk.ok("E6", inst, c, "a negative result is not turned into a non-negative return value", nontrivial=False)
+                        if u.pred == "slt":
+                            edges.append((br.bb, br.x["succ"][0], True))
+                        elif u.pred == "sge":
+                            edges.append((br.bb, br.x["succ"][1], True))
+                        elif u.pred == "ne":
+                            edges.append((br.bb, br.x["succ"][0], False))
+                        elif u.pred == "eq":
+                            edges.append((br.bb, br.x["succ"][1], False))
+            if not edges:
+                continue
+            seen.add(key)
+            n += 1
+            inst = "%s->%s" % (f.name, norm_callee(c.callee) or ("%s.%s" % slot_call(c) if slot_call(c) else "indirect"))
+            bad = None
+            for (frm, start, strict) in edges:
+                # all return blocks reachable without a call or a store (nothing recorded on the way), depth-bounded
+                stack = [(start, frm, 0)]
+                visited = set()
+                while stack and bad is None:
+                    b, prev, d = stack.pop()
+                    if (id(b), id(prev)) in visited or d > 6:
+                        continue
+                    visited.add((id(b), id(prev)))
+                    if any(i.op in ("call", "store") for i in b.insts):
+                        continue
+                    t = b.term
+                    if t.op == "ret":
+                        v = t.ops[0] if t.ops else None
+                        if v is not None and v.is_inst and v.op == "phi" and v.bb is b:
+                            for val, pred in zip(v.ops, v.x["inc"]):
+                                if pred is prev:
+                                    v = val
+                        leaves, work = [], [v] if v is not None else []
+                        while work:
+                            y = work.pop()
+                            while y.is_inst and y.op in ("sext", "zext", "trunc"):
+                                y = y.ops[0]
+                            if y.is_inst and y.op == "select":
+                                work += [y.ops[1], y.ops[2]]
+                            else:
+                                leaves.append(y)
+                        for y in leaves:
+                            if y.is_const:
+                                if strict and y.is_int and y.sval > 0:
+                                    bad = (t, "the positive constant %d" % y.sval)
+                            elif id(y) in res or (y.is_inst and y.op == "call" and em.call_is_err(y)):
+                                pass
+                            elif _errish(em, y, res, set()):
+                                pass
+                            else:
+                                bad = (t, "'%s', which is not the error code" % ((getattr(y, "name", None) or y.op) if y.is_inst else "a value"))
+                        continue
+                    for s_ in b.succs:
+                        stack.append((s_, b, d + 1))
+            if bad is not None:
+                chk.violation("E6", inst, c, "on the edge where %s reported an error the function can return %s (line %d) without "
+                              "storing or reporting the error: the failure is swallowed or deferred to a call that may never come" % (
+                                  norm_callee(c.callee) or "the callee", bad[1], bad[0].line))
+            else:
+                chk.ok("E6", inst, c, "an error result is not turned into a regular return value", nontrivial=False)
     return n
 
 
